@@ -545,6 +545,9 @@ func init() {
 			if g.ft.MaxScopes < 2 {
 				g.ft.MaxScopes = 3
 			}
+			if g.ft.Decorators && g.r.Intn(5) == 0 {
+				g.tmpl = (*genCtx).tmplDecorateFirst
+			}
 		}, Mix{Scope: 3, Provide: 12, Decorate: 3, Invoke: 4, VisStr: 0}),
 		Eval:       evalC16,
 		QuickRuns:  60_000,
@@ -555,6 +558,13 @@ func init() {
 		Rule: "history whose normal twin executed at least 3 user functions (all of which the dry container must skip while reporting the same verdicts)",
 		Gen: genGeneric("C17", func(g *genCtx) {
 			g.ft.FaultRate, g.ft.FaultInv = 0, 0
+			// every path to a user function: with callbacks attached, variadic
+			// signatures, deep scope trees
+			g.ft.Callbacks = g.r.P(0.5)
+			g.ft.Variadic = g.r.P(0.6)
+			if g.r.P(0.5) {
+				g.ft.MaxScopes, g.ft.MaxDepth = g.r.Range(3, 6), 3
+			}
 			g.ft.PAvail = 0.85
 			g.ft.Wild = []float64{0, 0.15}[g.r.Intn(2)]
 			g.ft.PDup = 0.15
